@@ -28,6 +28,7 @@ EXPLANATION = (
     "state-write summary. NOT decided: implicit exceptions raised by library calls (numpy, float(), dict lookups), and the behavioural equality "
     "of rebuilt/deserialised sequences (runtime). ORDER (added): the raises through which a triaged pair can fail are frozen (tables/c09_pair_raises.json) -- a raise that was not possible when the pair was triaged is reported; a raise of a validator that already ran, on an argument of the same name, at a point dominating the mutation is discharged; raises inside single-site private helpers are attributed to the caller; tables/c09_precedence.json lists validate-before-mutate facts the triage relies on (checked on the program order of the symbolic log)."
     " ALIAS (round 3): no public accessor of Sequence returns one of the sequence's own mutable containers (_variables, _calls, _schedule, ...) itself: a copy or a derived value only, so that neither a caller nor a replica made by switch_register/switch_device can change the sequence without a recorded call."
+    " TOTAL (round 4): the maximum over the Global channels' samples that _set_slm_mask_dmm takes after configuring the DMM cannot raise on a channel without samples (initial= given or empty channels filtered)."
 )
 ASSUMPTIONS = [
     "only explicit raise statements of the project are modelled; implicit exceptions of builtins/numpy are not",
@@ -431,6 +432,33 @@ def run(E: Engine, rep: Report, tier: str) -> dict:
         _check_ro(E, rep, E.R.effective(f), f.short)
     rep.floor("RO", 20)
 
+    # -------------------------------------------------------------- TOTAL
+    # _set_slm_mask_dmm takes np.max over the samples of every Global channel *after* the DMM was configured: a
+    # Global channel that holds no samples yet makes np.max raise ("zero-size array"), so the call fails with the DMM
+    # already declared.  The reduction must be total: `initial=` given, or empty channels filtered out.
+    ssm = E.method(SEQ, "_set_slm_mask_dmm")
+    from .. import sym as _symT
+    from .symutil import S as _ST, sh as _shT
+
+    reds = []
+    for l in _ST(E, ssm, inline=False).log:
+        for top in (l.value, l.target):
+            for t in _symT.subterms(top) if top is not None else ():
+                if t[0] == "call" and t[1] in (_symT.Pattern("np.max").term, _symT.Pattern("np.amax").term, _symT.Pattern("np.min").term) and t[2] and any(x[0] == "call" and x[1][0] == "attr" and x[1][2] == "get_samples" for x in _symT.subterms(t[2][0])):
+                    reds.append((t, l))
+    seen_red = set()
+    for t, l in reds:
+        if t in seen_red:
+            continue
+        seen_red.add(t)
+        total = dict(t[3]).get("initial") is not None
+        if not total:
+            # filtered comprehension: only channels that have slots / samples
+            for c_ in [x for x in _symT.subterms(l.value) if x[0] == "comp" and _symT.contains(x, t)] if l.value is not None else []:
+                total = total or any(_symT.contains(c_[3][0][1], y) for y in _symT.subterms(c_[3][0][1]) if y[0] == "attr" and y[2] in ("slots", "duration")) and c_[3][0][1] != _symT.TRUE and any(y[0] == "attr" and y[2] in ("slots",) for y in _symT.subterms(c_[3][0][1]))
+        rep.check(total, "TOTAL", "Sequence._set_slm_mask_dmm|max-over-channel-samples-is-total", "np.max(..., initial=...) (or empty channels are filtered out)", f"`{_shT(t, 90)}` raises ValueError('zero-size array ...') for a Global channel without samples; it runs after the DMM of the SLM mask was configured, so config_slm_mask (or the first pulse) fails with the DMM already declared", E.where(ssm, l.node))
+    if not reds:
+        raise AnalysisError("anchor: the maximum over the Global channels' samples in Sequence._set_slm_mask_dmm was not found")
     # -------------------------------------------------------------- ALIAS
     # a read accessor never hands out one of the sequence's own mutable containers: whoever edits the result would
     # change the sequence (and, through switch_register/switch_device which copy `declared_variables`, a replica would
